@@ -15,21 +15,28 @@ export Flipdot.Generated.VSignFull (new flushPixels dataChunksSent reset finishR
   busProcessMessage)
 end G
 
+/-- Equality of two state-passing functions on a sign whose fields are exposed: split every `if` / `match`
+    on both sides and close each combination of cases by simplification and linear arithmetic.  Used for
+    every handler so that behaviour-preserving rewrites of the source (early returns, conditions negated
+    or reordered, `match` ↔ `if`) keep checking. -/
+macro "vs_cases" : tactic => `(tactic|
+  (repeat' (first
+     | rfl
+     | (split <;> (try simp_all) <;> (try omega)))))
+
 theorem new_eq (a : UInt16) (st : FlipStyle) : G.new a st = VSign.new a st := rfl
 
 /-- `flush_pixels`. -/
 theorem flushPixels_eq (s : VSign) : G.flushPixels s = .ok (s.flush, ()) := by
   unfold Generated.VSignFull.flushPixels VSign.flush
-  by_cases hp : s.pending = []
-  · simp [hp]
-  · have : s.pending.isEmpty = false := by cases h : s.pending <;> simp_all
-    simp only [hp, not_false_eq_true, ↓reduceIte, this, Bool.false_eq_true]
-    split
-    · split <;> simp_all
-    · rfl
+  obtain ⟨addr, style, state, pages, pending, chunks, w, h, st⟩ := s
+  simp only [List.isEmpty_iff]
+  vs_cases
 
 /-- `reset`. -/
-theorem reset_eq (s : VSign) : G.reset s = .ok (s.reset, ()) := rfl
+theorem reset_eq (s : VSign) : G.reset s = .ok (s.reset, ()) := by
+  unfold Generated.VSignFull.reset VSign.reset
+  first | rfl | (obtain ⟨addr, style, state, pages, pending, chunks, w, h, st⟩ := s; vs_cases)
 
 /-- `data_chunks_sent`. -/
 theorem dataChunksSent_eq (s : VSign) (n : UInt16) : G.dataChunksSent s n = .ok (s.chunksSent n, none) := by
@@ -39,7 +46,8 @@ theorem dataChunksSent_eq (s : VSign) (n : UInt16) : G.dataChunksSent s n = .ok 
   by_cases hc : chunks = n.toNat
   · subst hc; cases state <;> simp [State.afterCount]
   · have hb : (chunks == n.toNat) = false := by simpa using hc
-    cases state <;> simp [hc, hb, State.afterCount]
+    have hc' : ¬ n.toNat = chunks := fun h => hc h.symm
+    cases state <;> simp [hc, hc', hb, State.afterCount]
 
 /-- The configuration branch of `send_data` on a 16-byte block: the indexing and slicing the source
     does never panic there and yield the model's `configDims`. -/
@@ -111,13 +119,15 @@ theorem processMessage_eq (s : VSign) (m : Msg) : G.processMessage s m = vstep s
   cases m with
   | hello a =>
     simp only [Generated.VSignFull.processMessage, vstep, Generated.VSignFull.queryState, VSign.queryState]
-    by_cases h : a = s.addr
-    · cases hs : s.state <;> simp [h, hs, bindE]
+    obtain ⟨addr, style, state, pages, pending, chunks, w, h, st⟩ := s
+    by_cases h : a = addr
+    · cases state <;> simp [h, bindE]
     · simp [h]
   | queryState a =>
     simp only [Generated.VSignFull.processMessage, vstep, Generated.VSignFull.queryState, VSign.queryState]
-    by_cases h : a = s.addr
-    · cases hs : s.state <;> simp [h, hs, bindE]
+    obtain ⟨addr, style, state, pages, pending, chunks, w, h, st⟩ := s
+    by_cases h : a = addr
+    · cases state <;> simp [h, bindE]
     · simp [h]
   | sendData off d =>
     simp only [Generated.VSignFull.processMessage, vstep, sendData_eq, bindE]
@@ -125,18 +135,18 @@ theorem processMessage_eq (s : VSign) (m : Msg) : G.processMessage s m = vstep s
   | chunksSent n =>
     simp only [Generated.VSignFull.processMessage, vstep, dataChunksSent_eq, bindE]
   | requestOp a o =>
-    by_cases h : a = s.addr
-    · cases o <;> cases hs : s.state <;>
-        simp [Generated.VSignFull.processMessage, vstep, h, hs, bindE, Generated.VSignFull.receiveConfig,
+    obtain ⟨addr, style, state, pages, pending, chunks, w, h', st⟩ := s
+    by_cases h : a = addr
+    · cases o <;> cases state <;>
+        simp [Generated.VSignFull.processMessage, vstep, h, bindE, Generated.VSignFull.receiveConfig,
           Generated.VSignFull.receivePixels, Generated.VSignFull.showLoadedPage, Generated.VSignFull.loadNextPage,
           Generated.VSignFull.startReset, Generated.VSignFull.finishReset, reset_eq, VSign.canReceivePixels, VSign.reset]
     · cases o <;> simp [Generated.VSignFull.processMessage, vstep, h]
   | pixelsComplete a =>
     simp only [Generated.VSignFull.processMessage, vstep, Generated.VSignFull.pixelsComplete]
-    by_cases h : a = s.addr
-    · by_cases hs : s.state = .pixelsReceived
-      · cases hst : s.style <;> simp [h, hs, hst, bindE]
-      · simp [h, hs, bindE]
+    obtain ⟨addr, style, state, pages, pending, chunks, w, h', st⟩ := s
+    by_cases h : a = addr
+    · cases state <;> cases style <;> simp [h, bindE]
     · simp [h]
   | goodbye a =>
     simp only [Generated.VSignFull.processMessage, vstep, Generated.VSignFull.goodbye, reset_eq, bindE]
